@@ -2633,6 +2633,9 @@ func (l *c20Loop) done() *cfg.Block { return l.head.Succs[1] }
 // following only allowed edges and never passing a block in fence?
 func c20Reach(g *FG, b *cfg.Block, idx int, avoid func(ast.Node) bool, allowed func(b *cfg.Block, si int) bool,
 	target func(*cfg.Block) bool, hit func(ast.Node) bool, fence map[*cfg.Block]bool) bool {
+	if c20ActiveFlags != nil {
+		return c20ReachF(c20ActiveFlags, g, b, idx, avoid, allowed, target, hit, fence)
+	}
 	type item struct {
 		b   *cfg.Block
 		idx int
@@ -2783,7 +2786,21 @@ func c20Render(c *Ctx) {
 			}
 			return [][]c20Leaf{{}}
 		}
-		return c20DNF(cond.Expr, si == 0)
+		alts := c20DNF(cond.Expr, si == 0)
+		if c20ActiveFlags != nil && c20CurFlagState != "" {
+			// only the alternatives that the current values of the local flags allow
+			var keep [][]c20Leaf
+			for _, alt := range alts {
+				if c20ActiveFlags.altFeasible(alt, c20CurFlagState) {
+					keep = append(keep, alt)
+				}
+			}
+			if len(keep) == 0 {
+				return [][]c20Leaf{{{e: cond.Expr, pol: si != 0}}} // infeasible edge: an alternative nobody accepts
+			}
+			alts = keep
+		}
+		return alts
 	}
 	// the edge can be taken while recv.refresh == want
 	withRefresh := func(want bool) func(*cfg.Block, int) bool {
@@ -2878,11 +2895,12 @@ func c20Render(c *Ctx) {
 			return flag
 		})
 	}
+	_ = hasFlag
+	// local boolean flags ("found", "keep") are tracked path-sensitively: the searches below run on the
+	// product of the control-flow graph with the flags' values
+	c20ActiveFlags = c20NewFlags(g, info, fi)
+	defer func() { c20ActiveFlags = nil }()
 	check := func(l *c20Loop, cond bool, key string, p token.Pos, okReason, badReason string) {
-		if !cond && hasFlag(l) {
-			c.undecided("C20.d", key, p, "the loop uses a boolean flag variable; the path-insensitive argument does not apply (it would report: %s)", badReason)
-			return
-		}
 		c.check(cond, "C20.d", key, p, okReason, badReason)
 	}
 	del1 := callOnVar(pfield["deleteFn"], L1.val)
@@ -3439,4 +3457,237 @@ func c20KittyCommands(c *Ctx, k *c20Kind, idField string) {
 	okDel := del.keys["d"] == "i" && isID(argOf(*del, "i")) && pp != nil && dp != nil && termOf(info, pp).ID == termOf(info, dp).ID
 	c.check(okDel, "C20.m", keyDel, del.pos, "a=d,d=i with the same image id and placement id as the put command",
 		"the delete command is not d=i (lower case keeps the data that writeTo will not upload again) with the put command's i= and p= values: a dropped placement stays, or a refreshed image never reappears")
+}
+
+
+// ---- path-sensitive treatment of local boolean flags in the placement loops (C20.d)
+
+type c20Flags struct {
+	g     *FG
+	info  *types.Info
+	vars  []*types.Var
+	index map[types.Object]int
+	flow  *tsFlow
+}
+
+var c20ActiveFlags *c20Flags
+
+// c20NewFlags: the local boolean variables of fi that occur in a branch condition; their possible values at
+// every block entry (all false at the function entry: Go's zero value, overwritten by the declaration).
+func c20NewFlags(g *FG, info *types.Info, fi *FuncInfo) *c20Flags {
+	f := &c20Flags{g: g, info: info, index: map[types.Object]int{}}
+	for _, b := range g.Blocks {
+		cond := g.BranchCond(b)
+		if cond == nil || cond.Tag != nil || cond.Alts != nil {
+			continue
+		}
+		for _, alt := range c20DNF(cond.Expr, true) {
+			for _, l := range alt {
+				if id, ok := unparen(l.e).(*ast.Ident); ok {
+					if v, ok := info.Uses[id].(*types.Var); ok && !v.IsField() && v.Parent() != fi.Pkg.Types.Scope() {
+						if bt, ok := v.Type().Underlying().(*types.Basic); ok && bt.Info()&types.IsBoolean != 0 {
+							if _, seen := f.index[v]; !seen {
+								f.index[v] = len(f.vars)
+								f.vars = append(f.vars, v)
+							}
+						}
+					}
+				}
+			}
+		}
+	}
+	if len(f.vars) == 0 || len(f.vars) > 6 {
+		return nil
+	}
+	// a flag whose address is taken or that a literal captures cannot be tracked
+	bad := false
+	ast.Inspect(fi.Decl.Body, func(n ast.Node) bool {
+		switch t := n.(type) {
+		case *ast.UnaryExpr:
+			if t.Op == token.AND {
+				if id, ok := unparen(t.X).(*ast.Ident); ok {
+					if _, isFlag := f.index[info.Uses[id]]; isFlag {
+						bad = true
+					}
+				}
+			}
+		case *ast.FuncLit:
+			ast.Inspect(t.Body, func(m ast.Node) bool {
+				if id, ok := m.(*ast.Ident); ok {
+					if _, isFlag := f.index[info.Uses[id]]; isFlag {
+						bad = true
+					}
+				}
+				return true
+			})
+		}
+		return true
+	})
+	if bad {
+		return nil
+	}
+	f.flow = &tsFlow{g: g, transfer: func(l Loc, n ast.Node, s string) []string { return f.transfer(n, s) },
+		refine: func(b *cfg.Block, cd *Cond, truth bool, s string) []string {
+			if f.feasible(cd.Expr, truth, s) {
+				return []string{s}
+			}
+			return nil
+		}}
+	f.flow.run(strings.Repeat("0", len(f.vars)))
+	return f
+}
+
+func (f *c20Flags) transfer(n ast.Node, s string) []string {
+	cur := []string{s}
+	set := func(v types.Object, rhs ast.Expr) {
+		i, ok := f.index[v]
+		if !ok {
+			return
+		}
+		var vals []byte
+		if rhs == nil {
+			vals = []byte{'0'}
+		} else if tv, ok := f.info.Types[rhs]; ok && tv.Value != nil && tv.Value.Kind() == constant.Bool {
+			if constant.BoolVal(tv.Value) {
+				vals = []byte{'1'}
+			} else {
+				vals = []byte{'0'}
+			}
+		} else {
+			vals = []byte{'0', '1'}
+		}
+		var next []string
+		for _, c := range cur {
+			for _, b := range vals {
+				bs := []byte(c)
+				bs[i] = b
+				next = append(next, string(bs))
+			}
+		}
+		cur = next
+	}
+	inspectNoLit(n, func(m ast.Node) bool {
+		switch t := m.(type) {
+		case *ast.AssignStmt:
+			for i, lh := range t.Lhs {
+				if id, ok := unparen(lh).(*ast.Ident); ok {
+					if o := f.info.ObjectOf(id); o != nil {
+						if len(t.Lhs) == len(t.Rhs) {
+							set(o, t.Rhs[i])
+						} else {
+							set(o, ast.NewIdent("?"))
+						}
+					}
+				}
+			}
+		case *ast.ValueSpec:
+			for i, nm := range t.Names {
+				if o := f.info.Defs[nm]; o != nil {
+					if len(t.Values) == len(t.Names) {
+						set(o, t.Values[i])
+					} else {
+						set(o, nil)
+					}
+				}
+			}
+		}
+		return true
+	})
+	return cur
+}
+
+var c20CurFlagState string
+
+func (f *c20Flags) altFeasible(alt []c20Leaf, s string) bool {
+	for _, l := range alt {
+		if id, isID := unparen(l.e).(*ast.Ident); isID {
+			if i, isFlag := f.index[f.info.Uses[id]]; isFlag {
+				if (s[i] == '1') != l.pol {
+					return false
+				}
+			}
+		}
+	}
+	return true
+}
+
+// feasible: can the condition evaluate to truth in the valuation s?
+func (f *c20Flags) feasible(e ast.Expr, truth bool, s string) bool {
+	for _, alt := range c20DNF(e, truth) {
+		if f.altFeasible(alt, s) {
+			return true
+		}
+	}
+	return false
+}
+
+func c20ReachF(f *c20Flags, g *FG, b *cfg.Block, idx int, avoid func(ast.Node) bool, allowed func(b *cfg.Block, si int) bool,
+	target func(*cfg.Block) bool, hit func(ast.Node) bool, fence map[*cfg.Block]bool) bool {
+	type item struct {
+		b   *cfg.Block
+		idx int
+		s   string
+	}
+	type key struct {
+		b *cfg.Block
+		s string
+	}
+	seen := map[key]bool{}
+	var work []item
+	for _, s := range f.flow.before(Loc{b, idx}) {
+		work = append(work, item{b, idx, s})
+	}
+	for len(work) > 0 {
+		it := work[len(work)-1]
+		work = work[:len(work)-1]
+		states := []string{it.s}
+		blocked := false
+		for i := it.idx; i < len(it.b.Nodes); i++ {
+			n := it.b.Nodes[i]
+			if hit != nil && containsNode(n, hit) {
+				return true
+			}
+			if avoid != nil && containsNode(n, avoid) {
+				blocked = true
+				break
+			}
+			var next []string
+			for _, s := range states {
+				next = append(next, f.transfer(n, s)...)
+			}
+			states = next
+		}
+		if blocked {
+			continue
+		}
+		two := len(it.b.Succs) == 2 && it.b.Succs[0] != it.b.Succs[1]
+		cond := g.BranchCond(it.b)
+		for si, s := range it.b.Succs {
+			if si == 1 && !two {
+				continue
+			}
+			for _, stt := range states {
+				if two && cond != nil && cond.Tag == nil && cond.Alts == nil && !f.feasible(cond.Expr, si == 0, stt) {
+					continue
+				}
+				if allowed != nil && two {
+					c20CurFlagState = stt
+					ok := allowed(it.b, si)
+					c20CurFlagState = ""
+					if !ok {
+						continue
+					}
+				}
+				if target != nil && target(s) {
+					return true
+				}
+				if fence[s] || seen[key{s, stt}] {
+					continue
+				}
+				seen[key{s, stt}] = true
+				work = append(work, item{s, 0, stt})
+			}
+		}
+	}
+	return false
 }
